@@ -20,6 +20,7 @@ import (
 type KnownFinding struct {
 	Status   string         `json:"status"` // "known" | "fixed"
 	Property string         `json:"property"`
+	Pkg      string         `json:"pkg,omitempty"` // harness package (roaring | roaring64 | bsi); empty = any
 	Func     string         `json:"func,omitempty"`
 	Label    string         `json:"label,omitempty"`  // assertion label that fails
 	Params   map[string]int `json:"params,omitempty"` // instance parameters that identify the failing call site (subset match)
@@ -48,6 +49,9 @@ func matchKnown(kfs []KnownFinding, prop string, in *Instance, label string) *Kn
 			continue
 		}
 		if k.Label != "" && k.Label != label {
+			continue
+		}
+		if k.Pkg != "" && k.Pkg != in.Pkg {
 			continue
 		}
 		ok := true
